@@ -145,7 +145,7 @@ Definition file_response (content range_hdr : bytes) : Z * bytes * bytes * bytes
     (206%Z, number (r_length r), B "bytes " ++ r_content_range r, wanted content (r_from r) (r_to r))
   else (200%Z, number size, [], content).
 
-(* family "fs": case ::= ( tree root path ((hname hvalue)..) version [meta] ) ; obs ::= ( status cl cr body closed ) *)
+(* family "fs": case ::= ( tree root path ((hname hvalue)..) version [meta] ) ; obs ::= ( status cl cr body closed released ) *)
 Fixpoint dec_tree_fs (l : list value) : option (list fentry) :=
   match l with
   | [] => Some []
@@ -169,27 +169,33 @@ Definition run_fs (c : value) : value :=
           match dec with
           | NotFound =>
               let page := error_page 404 (status_reason 404) ver in
-              VL [VI 404; VB (number (blen page)); VB []; VB page; VI 1]
+              VL [VI 404; VB (number (blen page)); VB []; VB page; VI 1; VI 1]
           | ServeDir p =>
               let page := listing_page d (children fs p) ver in
-              VL [VI 200; VB (number (blen page)); VB []; VB page; VI 1]
+              VL [VI 200; VB (number (blen page)); VB []; VB page; VI 1; VI 1]
           | ServeFile p content =>
               let '(st, cl, cr, body) := file_response content (hm_value (B "Range") (hm_of_list hs)) in
-              VL [VI st; VB cl; VB cr; VB body; VI 1]
+              VL [VI st; VB cl; VB cr; VB body; VI 1; VI 1]
           end
       | _, _ => verr
       end
   | _ => verr
   end.
 
-(* family "fsm": several requests through ONE handler object; the handler keeps no state between requests, so each
-   answer is that of a fresh handler.   case ::= ( tree rootspec ((path headers)..) version [(meta..)] ) *)
+(* family "fsm": several requests through ONE handler object; the handler keeps no state between requests except its
+   document root, which a request of the form (path headers newroot) replaces (setDocumentRoot) before it is served: each
+   answer is that of a fresh handler on the root in force.   case ::= ( tree rootspec ((path headers [newroot])..) version [(meta..)] ) *)
+Fixpoint run_fsm_reqs (tree : list value) (rootspec ver : bytes) (reqs : list value) : list value :=
+  match reqs with
+  | [] => []
+  | VL [VB path; VL hdrs] :: r =>
+      run_fs (VL [VL tree; VB rootspec; VB path; VL hdrs; VB ver]) :: run_fsm_reqs tree rootspec ver r
+  | VL [VB path; VL hdrs; VB newroot] :: r =>
+      run_fs (VL [VL tree; VB newroot; VB path; VL hdrs; VB ver]) :: run_fsm_reqs tree newroot ver r
+  | _ :: r => verr :: run_fsm_reqs tree rootspec ver r
+  end.
 Definition run_fsm (c : value) : value :=
   match c with
-  | VL (VL tree :: VB rootspec :: VL reqs :: VB ver :: _) =>
-      VL (map (fun rq => match rq with
-                         | VL [VB path; VL hdrs] => run_fs (VL [VL tree; VB rootspec; VB path; VL hdrs; VB ver])
-                         | _ => verr
-                         end) reqs)
+  | VL (VL tree :: VB rootspec :: VL reqs :: VB ver :: _) => VL (run_fsm_reqs tree rootspec ver reqs)
   | _ => verr
   end.
